@@ -47,7 +47,10 @@ def real_response(pw, chal):
     c.factory = rfb.RFBFactory()
     c.makeConnection(StringTransport())
     c._challenge = chal
-    c.sendPassword(pw)
+    try:
+        c.sendPassword(pw)
+    except Exception as e:  # noqa: BLE001  (no response is a wrong response: the judge sees what reached the wire)
+        return b"raised " + type(e).__name__.encode() + b": " + str(e)[:60].encode()
     return c.transport.value()
 
 
@@ -126,7 +129,9 @@ def run(tier, seed, model):
         want = bytes(answers[2 * i])
         mkey = answers[2 * i + 1]
         why = None
-        if len(got) != 16:
+        if got.startswith(b"raised "):
+            why = "sendPassword " + got.decode(errors="replace") + " - nothing answers the challenge"
+        elif len(got) != 16:
             why = f"response has {len(got)} bytes"
         elif got != want:
             why = f"response {got.hex()} is not DES-ECB(key {spec_key(pw).hex()})(challenge) = {want.hex()}"
